@@ -11,6 +11,9 @@ import (
 	"go/constant"
 	"go/types"
 	"math/big"
+	"os"
+	"path/filepath"
+	"regexp"
 	"sort"
 	"strings"
 	"unicode"
@@ -306,4 +309,65 @@ func c19KeyReplay(key string, m int, isModKey bool, wantKey, wantCh, wantMod int
 			return
 		}
 	}`, key, b(0), b(1), b(2), b(3), isModKey, wantKey, wantCh, wantMod, m, wantKey, wantCh, wantMod, key, isModKey, key))
+}
+
+// c19InitHandlers: webfiles/tcell.js calls a fixed set of Go handlers (onKeyEvent, onMouseClick, onMouseMove, onFocus,
+// onPaste) from its DOM listeners, unconditionally. Each of them has to exist from Init on - a listener that calls an
+// undefined global throws, and what it was about to deliver (the pasted characters, which arrive as key callbacks
+// between onPaste(true) and onPaste(false)) is lost. Scan of the SSA of (*wScreen).Init for js.Global().Set(<constant name>, ..).
+func c19InitHandlers(run *PropRun) {
+	e := run.Eng
+	data, err := os.ReadFile(filepath.Join(e.Repo, "webfiles", "tcell.js"))
+	if err != nil {
+		run.Errors = append(run.Errors, "cannot read webfiles/tcell.js: "+err.Error())
+		return
+	}
+	want := map[string]bool{}
+	for _, m := range regexp.MustCompile(`\b(on[A-Z][A-Za-z]*)\(`).FindAllStringSubmatch(string(data), -1) {
+		want[m[1]] = true
+	}
+	fn := e.FindFunc(modPath + ".(*wScreen).Init")
+	if fn == nil {
+		run.Errors = append(run.Errors, "(*wScreen).Init not found")
+		return
+	}
+	set := map[string]bool{}
+	for _, b := range fn.Blocks {
+		for _, in := range b.Instrs {
+			c, ok := in.(*ssa.Call)
+			if !ok {
+				continue
+			}
+			callee := c.Common().StaticCallee()
+			if callee == nil || callee.Name() != "Set" || callee.Pkg == nil || callee.Pkg.Pkg.Path() != "syscall/js" {
+				continue
+			}
+			if len(c.Common().Args) >= 2 {
+				if k, isC := c.Common().Args[1].(*ssa.Const); isC && k.Value != nil {
+					set[constant.StringVal(k.Value)] = true
+				}
+			}
+		}
+	}
+	var names []string
+	for n := range want {
+		names = append(names, n)
+	}
+	sort.Strings(names)
+	for _, n := range names {
+		g := run.AddObligation(fmt.Sprintf("wScreen.(*wScreen).Init/defines-handler[%s]", n), "discipline", BoolT(set[n]),
+			fmt.Sprintf("webfiles/tcell.js calls %s() from a DOM listener: Init defines that global (to the handler or the no-op), otherwise the listener throws and what it was delivering is lost", n))
+		g.Pos = e.posStr(fn.Pos())
+		g.ReplayGo = replayTest("tcell", []string{"syscall/js"}, wasmStubs+fmt.Sprintf(`
+	js.Global().Delete(%q)
+	s := &wScreen{}
+	s.fallback = make(map[rune]string)
+	s.Init()
+	if ty := js.Global().Get(%q).Type(); ty != js.TypeFunction {
+		fail("after Init the global %s is %%v, not a function: the page's listener calls it unconditionally and throws", ty)
+		return
+	}`, n, n, n))
+	}
+	run.AddObligation("wScreen/page-handlers-found", "discipline", BoolT(len(names) >= 4), "the handler names the page script calls were found in webfiles/tcell.js")
+	run.Extra["page_handlers_called_by_tcell_js"] = len(names)
 }
